@@ -55,7 +55,8 @@ SYS = {
  "C02": [("diamond every edit/perturbation", "diamond", ALLEDITS, ["copy", "const"], ["all"], ["ALL", "d"], 3, 4, False),
          ("chain minimal-mode locality", "chain", BASE + ["Perturb", "DropBlob"], ["copy", "const"], ["minimal"], ["ALL", "c"], 3, 4, False)],
  "C13": [("diamond taint/no-cache/cache-off", "diamond", ["EditInput", "Build", "Taint", "ToggleNoCache", "BuildCacheOff"], ["copy", "const"], ["all"], ["ALL", "d"], 3, 4, False)],
- "C14": [("check targets", "check", BASE + ["BreakExt", "Taint"], ["copy", "fail", "noest", "unest", "omit"], ["all"], ["ALL", "n"], 3, 4, False)],
+ "C14": [("check targets", "check", BASE + ["BreakExt", "Taint"], ["copy", "fail", "noest", "unest", "omit"], ["all"], ["ALL", "n"], 3, 4, False),
+         ("diamond: declared file, sub-directory and directory outputs left out, timeouts", "diamond", BASE, ["copy", "omit", "slow"], ["all"], ["ALL"], 3, 4, False)],
  "C15": [("diamond minimal", "diamond", BASE + ["Taint", "ToggleNoCache", "Perturb", "EditFingerprint"], ["copy", "const", "fail"], ["minimal"], ["ALL", "d"], 3, 4, False),
          ("alias minimal", "alias", BASE + ["Retarget", "Taint", "ToggleNoCache"], ["copy", "const"], ["minimal"], ["ALL", "c"], 3, 4, False)],
  "C05": [("diamond failures", "diamond", BASE, ["copy", "fail", "omit", "slow"], ["all"], ["ALL", "d"], 3, 4, False),
